@@ -967,6 +967,9 @@ def generic_history(kind, d1, idx, rng):
     ops = [pump(data[:half], 'write'), dict(op='reset', data=rdata, cap=rng.choice([0, 3, 7, 20])),
            pump(data[half:], 'readfrom'), dict(op='parse', flags=1), dict(op='parsenil'),
            dict(op='reset'), dict(op='write', p=data[:min(len(data), B + 5)]), dict(op='shrink'),
+           # a caller slice whose capacity lies just above BufferSize (BufferSize..BufferSize+6), then ReadFrom
+           dict(op='reset', data=data[:max(0, B - 4)], cap=rng.choice([7, 8, 10])) if 4 < B <= 250 else dict(op='reset'),
+           pump(data[half:], 'readfrom'),
            dict(op='reset', data=data[:B + 1], cap=0),      # oversize: documented error
            pump(data[:half], 'write'), dict(op='byteat', rel='end', d=0), dict(op='readat', rel='off', d=0, lenp=4)]
     ps = dict(tid='c16-parser-%d' % idx, comp='parser', cfg=cfg, ops=ops, tags=['grid', kind])
@@ -1155,7 +1158,7 @@ SUFFIX_ASSUME = [
     'recorded texts are <= 4096 bytes (<= 1500 in the quick tier; <= 700 for single runs, <= 600 for Segments): deep DivSufSort paths that need larger inputs with production thresholds are reached through the verif-tagged SortCfg hook only (informational DRIFT09 rules)',
 ]
 
-MIX_GENERAL = dict(walks=140, hp=450, design=('GSAP.tla', 'GSAP_q.cfg', 'GSAP_mn.cfg', 300), go=[('parser', 350), ('parser-runs', 49), ('parser-osap', 28), ('parser-cap', 28), ('parser-sa-ntl', 70), ('parser-ntlfuture', 50)])
+MIX_GENERAL = dict(walks=140, hp=450, design=('GSAP.tla', 'GSAP_q.cfg', 'GSAP_mn.cfg', 300), go=[('parser', 350), ('parser-runs', 49), ('parser-osap', 28), ('parser-cap', 28), ('parser-sa-ntl', 70), ('parser-ntlfuture', 100), ('parser-ntlcollide', 45), ('parser-alias', 42)])
 
 def fam_dbuf(rule):
     return dict(run=run_dbuf, trace_module='DecoderBuf_Trace', rule=rule, assumptions=DBUF_ASSUME)
